@@ -163,7 +163,7 @@ func handlerExecRaw(h handlers.Handler, c wire.Cmd, spare int) (res wire.Result)
 	}()
 	switch c.Op {
 	case "set", "add", "replace", "append", "prepend":
-		req := common.SetRequest{Key: keyOf(0), Data: append([]byte(nil), c.Value...), Flags: c.Flags, Exptime: c.TTL, Opaque: c.Opaque}
+		req := common.SetRequest{Key: keyOf(0), Data: append([]byte(nil), c.Value...), Flags: c.Flags, Exptime: c.TTL, Opaque: c.Opaque, Quiet: c.QuietSet}
 		var err error
 		switch c.Op {
 		case "set":
